@@ -1,4 +1,5 @@
 import PynetVerif.Model.Ctx
+import PynetVerif.Gen.Glue
 import PynetVerif.Lemmas.Ctx
 /-!
 C18 — outgoing messages use an accepted presentation context compatible with
@@ -396,5 +397,12 @@ example :
   intro t ht
   cases ht
   exact ⟨rfl, Or.inr (by decide)⟩
+
+/-- every data set / identifier / attribute list the SCU calls send is encoded with the three flags of the
+ACCEPTED CONTEXT's transfer syntax (one variable, last assigned `context.transfer_syntax[0]`) — never with the
+data set's own label.  Syntax fact regenerated from association.py on every run. -/
+theorem C18_encoded_in_context_syntax :
+    Gen.Glue.encodeSites.all (·.2) = true ∧ Gen.Glue.encodeSites.length = 8 ∧
+    ("send_c_store", true) ∈ Gen.Glue.encodeSites := by decide
 
 end PynetVerif
